@@ -6,6 +6,7 @@ Property theorems only (helper lemmas are local and marked `private`/`lemma`-sty
 `HvVar/Model/Collections.lean`, for *every* history of `insert`/`extend`/`drain`.
 -/
 import HvVar.Model.Collections
+import HvVar.Model.Columns
 import Mathlib.Data.List.Perm.Subperm
 import Mathlib.Data.List.Count
 import Mathlib.Data.List.Dedup
@@ -444,6 +445,210 @@ theorem collections_agree (ops : List (Op α)) :
       ∀ y, y ∈ (HSet.run ops).iter ↔ y ∈ (ColSet.run ops).iter := by
   rw [(colset_is_history ops).1]
   exact ⟨cset_iter_is_multiset_of_history ops, (hset_is_set_of_history ops).2⟩
+
+/-! ### C10.d — `IntoIterator` of the counted set: the `DuplicateCounted` state machine -/
+
+/-- what a `DuplicateCounted` state still owes: `remaining` copies of `item` -/
+def CSet.expS : Option (α × Nat) → List α
+  | none => []
+  | some (item, n) => List.replicate n item
+
+/-- One `next()` of `DuplicateCounted` yields exactly the head of the remaining expansion
+(and `None` exactly when nothing remains) — for every state and every rest of the table,
+including zero counts. -/
+theorem cset_dupNext_yields_expansion (st : Option (α × Nat)) (rest : List (α × Nat)) :
+    match CSet.dupNext st rest with
+    | none => CSet.expS st ++ CSet.expand rest = []
+    | some (x, st', rest') =>
+        CSet.expS st ++ CSet.expand rest = x :: (CSet.expS st' ++ CSet.expand rest') := by
+  fun_induction CSet.dupNext st rest
+  all_goals simp_all [CSet.expS, CSet.expand, List.replicate_succ]
+  all_goals (split at * <;> simp_all [CSet.expS, CSet.expand])
+
+theorem aux_dupAll (fuel : Nat) (st : Option (α × Nat)) (rest : List (α × Nat))
+    (h : (CSet.expS st ++ CSet.expand rest).length < fuel) :
+    CSet.dupAll fuel st rest = CSet.expS st ++ CSet.expand rest := by
+  induction fuel generalizing st rest with
+  | zero => omega
+  | succ fuel ih =>
+    have spec := cset_dupNext_yields_expansion st rest
+    unfold CSet.dupAll
+    split <;> rename_i hd
+    · rw [hd] at spec; simp at spec; simp [spec]
+    · rw [hd] at spec; simp only at spec
+      rw [spec] at h ⊢
+      rw [ih _ _ (by simp at h ⊢; omega)]
+
+/-- Consuming a reachable counted set yields the multiset of the history. -/
+theorem cset_intoIter_is_multiset_of_history (ops : List (Op α)) :
+    (CSet.run ops).intoIter ~ histOf ops := by
+  have p := cset_iter_is_multiset_of_history ops
+  have hl := cset_len_eq ops
+  unfold CSet.intoIter
+  rw [aux_dupAll]
+  · simpa [CSet.expS, CSet.iter] using p
+  · have := p.length_eq
+    simp only [CSet.iter] at this
+    simp [CSet.expS, this, hl]; omega
+
+/-! ### C10.e — the column multiset on its real columnar representation -/
+
+theorem aux_zipRows_length {β : Type} (cols : List (List β)) (n : Nat) (hne : cols ≠ [])
+    (hl : ∀ c ∈ cols, c.length = n) : (zipRows cols).length = n := by
+  induction cols with
+  | nil => exact absurd rfl hne
+  | cons c cs ih =>
+    cases cs with
+    | nil => simp [zipRows, hl c (by simp)]
+    | cons c2 cs =>
+      have := ih (by simp) (fun c hc => hl c (by simp [hc]))
+      simp [zipRows, List.length_zipWith, hl c (by simp)] at this ⊢
+      omega
+
+theorem aux_zipRows_singleton {β : Type} (row : List β) (hne : row ≠ []) :
+    zipRows (singletonCols row) = [row] := by
+  induction row with
+  | nil => exact absurd rfl hne
+  | cons x r ih =>
+    cases r with
+    | nil => simp [singletonCols, zipRows]
+    | cons y r =>
+      have := ih (by simp)
+      simp only [singletonCols, List.map_cons] at this ⊢
+      simp [zipRows, this]
+
+theorem aux_zipRows_push {β : Type} (cols : List (List β)) (row : List β) (n : Nat)
+    (hne : cols ≠ []) (hl : ∀ c ∈ cols, c.length = n) (hr : row.length = cols.length) :
+    zipRows (pushRow cols row) = zipRows cols ++ [row] := by
+  induction cols generalizing row with
+  | nil => exact absurd rfl hne
+  | cons c cs ih =>
+    cases row with
+    | nil => simp at hr
+    | cons x r =>
+      cases cs with
+      | nil =>
+        have : r = [] := List.eq_nil_of_length_eq_zero (by simpa using hr)
+        subst this
+        simp [pushRow, zipRows]
+      | cons c2 cs =>
+        cases r with
+        | nil => simp at hr
+        | cons y r =>
+          have ih' := ih (y :: r) (by simp) (fun c hc => hl c (by simp [hc]))
+            (by simpa using hr)
+          have hlen := aux_zipRows_length (c2 :: cs) n (by simp) (fun c hc => hl c (by simp [hc]))
+          simp only [pushRow, List.zipWith_cons_cons] at ih' ⊢
+          simp only [zipRows]
+          rw [ih']
+          rw [List.zipWith_append (by rw [hl c (by simp), hlen])]
+          simp
+
+/-- rows of one operation all have the schema's arity -/
+def Op.rowsOk {β : Type} (k : Nat) : Op (List β) → Prop
+  | .insert r => r.length = k
+  | .extend rs => ∀ r ∈ rs, r.length = k
+  | .drain => True
+
+def ColStore.step {β : Type} [DecidableEq β] (s : ColStore β) : Op (List β) → ColStore β
+  | .insert x => (s.insert x).1
+  | .extend xs => s.extend xs
+  | .drain => s.drain.1
+def ColStore.run {β : Type} [DecidableEq β] (k : Nat) (ops : List (Op (List β))) : ColStore β :=
+  ops.foldl ColStore.step (ColStore.empty k)
+
+def ColStore.Refines {β : Type} (k : Nat) (s : ColStore β) (h : List (List β)) : Prop :=
+  s.columns.length = k ∧ (∀ c ∈ s.columns, c.length = h.length) ∧ zipRows s.columns = h ∧
+    s.lastOffset = h.length
+
+theorem aux_colstore_insert {β : Type} [DecidableEq β] (k : Nat) (hk : 0 < k) (s : ColStore β)
+    (h : List (List β)) (row : List β) (hr : row.length = k) (inv : s.Refines k h) :
+    (s.insert row).1.Refines k (h ++ [row]) := by
+  obtain ⟨ck, cl, zr, lo⟩ := inv
+  have rne : row ≠ [] := by intro e; subst e; simp at hr; omega
+  unfold ColStore.insert
+  split
+  · rename_i h0
+    have : h = [] := List.eq_nil_of_length_eq_zero (by omega)
+    subst this
+    refine ⟨by simp [singletonCols, hr], ?_, by simp [aux_zipRows_singleton row rne], by simp [h0]⟩
+    intro c hc; simp [singletonCols] at hc; obtain ⟨a, _, rfl⟩ := hc; simp
+  · have cne : s.columns ≠ [] := by intro e; rw [e] at ck; simp at ck; omega
+    refine ⟨by simp [pushRow, List.length_zipWith, ck, hr], ?_, ?_, by simp [lo]⟩
+    · intro c hc
+      simp only [pushRow] at hc
+      obtain ⟨i, hi, rfl⟩ := List.mem_iff_getElem.mp hc
+      simp only [List.getElem_zipWith, List.length_append, List.length_cons, List.length_nil]
+      rw [cl _ (List.getElem_mem _)]
+    · rw [aux_zipRows_push s.columns row h.length cne cl (by rw [hr, ck]), zr]
+
+theorem aux_colstore_extend {β : Type} [DecidableEq β] (k : Nat) (hk : 0 < k)
+    (rows : List (List β)) (s : ColStore β) (h : List (List β))
+    (hr : ∀ r ∈ rows, r.length = k) (inv : s.Refines k h) :
+    (s.extend rows).Refines k (h ++ rows) := by
+  induction rows generalizing s h with
+  | nil => simpa [ColStore.extend]
+  | cons r rows ih =>
+    simp only [ColStore.extend, List.foldl_cons]
+    have := ih _ _ (fun r' hr' => hr r' (by simp [hr']))
+      (aux_colstore_insert k hk s h r (hr r (by simp)) inv)
+    simpa [ColStore.extend] using this
+
+theorem aux_colstore_run {β : Type} [DecidableEq β] (k : Nat) (hk : 0 < k)
+    (ops : List (Op (List β))) (s : ColStore β) (h : List (List β))
+    (wf : ∀ op ∈ ops, op.rowsOk k) (inv : s.Refines k h) :
+    (ops.foldl ColStore.step s).Refines k (ops.foldl Op.hist h) := by
+  induction ops generalizing s h with
+  | nil => simpa
+  | cons op ops ih =>
+    apply ih _ _ (fun o ho => wf o (by simp [ho]))
+    have w := wf op (by simp)
+    cases op with
+    | insert x => exact aux_colstore_insert k hk s h x w inv
+    | extend xs => exact aux_colstore_extend k hk xs s h w inv
+    | drain =>
+      obtain ⟨ck, _, _, _⟩ := inv
+      refine ⟨by simp [ColStore.step, ColStore.drain, ck], ?_, ?_, rfl⟩
+      · intro c hc; simp [ColStore.step, ColStore.drain] at hc; simp [Op.hist, hc.2]
+      · simp only [ColStore.step, ColStore.drain, Op.hist]
+        have : ∀ (l : List (List β)), l ≠ [] → zipRows (l.map (fun _ => ([] : List β))) = [] := by
+          intro l hl
+          have := aux_zipRows_length (l.map (fun _ => ([] : List β))) 0 (by simpa using hl)
+            (by intro c hc; simp at hc; simp [hc.2])
+          exact List.eq_nil_of_length_eq_zero this
+        exact this _ (by intro e; rw [e] at ck; simp at ck; omega)
+
+/-- On its real representation (one `Vec` per column, `zip_vecs` to read rows back) the
+column multiset holds exactly the history, in order, for every history whose rows have the
+schema's arity `k ≥ 1`; `len` is the number of rows.  In particular neither the
+`last_offset == 0 ⇒ replace the columns` branch nor `drain` loses or misaligns a field. -/
+theorem colstore_is_history {β : Type} [DecidableEq β] (k : Nat) (hk : 0 < k)
+    (ops : List (Op (List β))) (wf : ∀ op ∈ ops, op.rowsOk k) :
+    (ColStore.run k ops).iter = histOf ops ∧ (ColStore.run k ops).len = (histOf ops).length := by
+  have := aux_colstore_run k hk ops (ColStore.empty k) [] wf
+    ⟨by simp [ColStore.empty], by simp [ColStore.empty],
+     by
+      have := aux_zipRows_length (List.replicate k ([] : List β)) 0
+        (by intro e; have := congrArg List.length e; simp at this; omega)
+        (by intro c hc; simp at hc; simp [hc.2])
+      simpa [ColStore.empty] using List.eq_nil_of_length_eq_zero this,
+     rfl⟩
+  exact ⟨this.2.2.1, this.2.2.2⟩
+
+/-- The row-wise model used above (`ColSet`) and the columnar store agree on every
+well-formed history. -/
+theorem colstore_eq_colset {β : Type} [DecidableEq β] (k : Nat) (hk : 0 < k)
+    (ops : List (Op (List β))) (wf : ∀ op ∈ ops, op.rowsOk k) :
+    (ColStore.run k ops).iter = (ColSet.run ops).iter := by
+  rw [(colstore_is_history k hk ops wf).1, (colset_is_history ops).1]
+
+example :
+    let ops : List (Op (List Nat)) :=
+      [.insert [1, 2], .drain, .insert [3, 4], .extend [[3, 4], [5, 6]]]
+    (∀ op ∈ ops, op.rowsOk 2) ∧ (ColStore.run 2 ops).columns = [[3, 3, 5], [4, 4, 6]] ∧
+      (ColStore.run 2 ops).iter = [[3, 4], [3, 4], [5, 6]] := by
+  refine ⟨?_, by decide, by decide⟩
+  intro op hop; simp at hop; rcases hop with rfl | rfl | rfl | rfl <;> simp [Op.rowsOk]
 
 /-! ### non-vacuity: a concrete history with duplicates, an extend and a drain -/
 
